@@ -59,8 +59,8 @@ func (r *Router) Match(method HTTPMethod, path string) (*Route, map[string]strin
 		return nil, nil, fmt.Errorf("no routes registered for method %s", method)
 	}
 
-	// Clean the path
-	path = strings.TrimSpace(path)
+	// The path arrives percent-decoded: white space at its ends is data of the
+	// first or last segment (/files/a%20), not something to clean away.
 	if !strings.HasPrefix(path, "/") {
 		path = "/" + path
 	}
